@@ -205,6 +205,16 @@ class Repo:
             self._index_module(m)
         for c in self.classes.values():
             c.bases = [self._resolve_base(c.module, b) for b in c.node.bases]
+        # locals renamed by a maintainer are renamed back to the names the rules were written against
+        # (sa/alpha.py: only where the definitions identify them; the source files are not touched)
+        self.renamed: dict[str, dict[str, str]] = {}
+        if os.environ.get("SA_NO_ALPHA") != "1":
+            from . import alpha
+
+            for q, fi in self.functions.items():
+                m = alpha.normalise(q, fi.node)
+                if m:
+                    self.renamed[q] = m
 
     def _index_module(self, m: ModuleInfo) -> None:
         def handle_import(stmt: ast.stmt) -> None:
